@@ -109,6 +109,35 @@ def run(case, rec):
             rec.note('build_failed(judged by C09):%s:%s' % (e.stage, type(e.exc).__name__))
         return
     ss, bv, bb = pygen.stone_runtime()
+    # the same API description handed to a second stub run (another backend instance, another folder)
+    # must give the same stubs: what the stubs declare may not depend on an earlier run
+    import os
+    import shutil
+    import tempfile
+    d2 = tempfile.mkdtemp(prefix='sv_c15_again_')
+    try:
+        from stone.compiler import Compiler
+        import stone.backends.python_type_stubs as stub_backend
+        Compiler(pkg.api, stub_backend, ['-p', pkg.pkg], d2).build()
+        for root, _, names in os.walk(pkg.outdir):
+            for fn in sorted(names):
+                if fn.endswith('.pyi'):
+                    rel = os.path.relpath(os.path.join(root, fn), pkg.outdir)
+                    a = open(os.path.join(root, fn), 'rb').read()
+                    other = os.path.join(d2, rel)
+                    b = open(other, 'rb').read() if os.path.exists(other) else None
+                    if a != b:
+                        la, lb = a.decode().split('\n'), (b or b'').decode().split('\n')
+                        first = next((x for x in la if x not in lb), None) or next((x for x in lb if x not in la), '')
+                        rec.violation('C15|second-run-differs|' + ('import-line' if 'import' in first else 'other'),
+                                      'a second python_type_stubs run on the same API description wrote a different %s: %r' % (
+                                          rel, first[:120]), case=case, human=specs)
+                        break
+    except Exception as e:
+        rec.violation('C15|second-run-raised|' + type(e).__name__, 'a second python_type_stubs run on the same API '
+                      'description raised %r' % (e,), case=case, human=specs)
+    finally:
+        shutil.rmtree(d2, ignore_errors=True)
     rec.case(core.h64(repr(specs)), bool(fs & {'nullable', 'list', 'map', 'xns_ref', 'alias', 'alias_use'}),
              classes=sorted(fs & {'nullable', 'list', 'map', 'xns_ref', 'xns_parent', 'alias', 'alias_chain',
                                   'enumerated_subtypes', 'union_inheritance', 'default', 'route'}),
